@@ -1094,6 +1094,53 @@ func readVerbatimRule(c *Ctx, rule string) {
 		}
 	}
 	c.Floor(rule, n, 1)
+	// evaluated: with the primary ReadRune delivering a sample character (and
+	// nothing pushed back), the rune buffered is that character; only CR is
+	// replaced (by LF)
+	for _, ch := range []rune{'a', '\t', 0, 0x85, 0xA0, 0x2028, 0x2029, 0xFEFF, 0xFFFD, 0x10FFFF, '\r'} {
+		sc := p.newSCCP()
+		sc.override = map[ssa.Value]cval{}
+		for _, l := range fieldLoads(f, "n") {
+			sc.override[l] = cConst(constant.MakeInt64(0))
+		}
+		sc.hook = func(call *ssa.Call, args []cval) ([]cval, bool) {
+			if call == primary {
+				return []cval{cConst(constant.MakeInt64(int64(ch))), cTop, cNil()}, true
+			}
+			return nil, false
+		}
+		r := sc.run(f, nil, 0)
+		key := fmt.Sprintf("(*reader).read: %U is buffered as itself", ch)
+		want := int64(ch)
+		if ch == '\r' {
+			key = "(*reader).read: CR is buffered as LF"
+			want = '\n'
+		}
+		got, decided := int64(0), false
+		for _, b := range f.Blocks {
+			if !r.execB[b.Index] {
+				continue
+			}
+			for _, in := range b.Instrs {
+				if st, ok := in.(*ssa.Store); ok {
+					if fa, ok := st.Addr.(*ssa.FieldAddr); ok && fieldNameOf(fa) == "ch" {
+						if v := r.get(st.Val); v.isPlain() {
+							got, _ = constant.Int64Val(constant.ToInt(v.v))
+							decided = true
+						}
+					}
+				}
+			}
+		}
+		switch {
+		case !decided:
+			c.Unk(rule, key, f.Pos(), "the buffered rune is not a constant of the rune read")
+		case got != want:
+			c.Bad(rule, key, f.Pos(), fmt.Sprintf("buffered as %U: the character is replaced on its way to the scanner, inside quoted text as well", got))
+		default:
+			c.OK(rule, key, f.Pos(), "unchanged")
+		}
+	}
 }
 
 // stringEndRule: a quoted string ends at the first closing quote that is not
